@@ -34,17 +34,24 @@ PROPS = {
  "C06": (True, "exploration", "bounded run-time contract stand-in (pickle_rt); pickle/copy are library code outside both engines",
          "Bounded only: get/setstate, pickle protocols 0-5, copy, C/Python byte identity and cross-loading over reached states.",
          "bounded scope stated in evidence; several recorded findings", "7/C06"),
- "C07": (True, "exploration", "bounded exhaustive run-time contract stand-in (merge_rt) against the statement's three-way-merge oracle",
-         "Bounded, exhaustive over the stated scope: all triples over 4 keys x 2 values / 5 keys, links, malformed shapes, both implementations.",
-         "the declarative merge invariant of DESIGN.md 7/C07 is not discharged yet; nothing is claimed as proved", "7/C07"),
+ "C07": (True, "other", T_P + "; bounded exhaustive run-time contract stand-in (merge_rt) against the statement's three-way-merge oracle",
+         "Proved: the state unwrapping of tree conflict resolution (_get_simple_btree_bucket_state: one-leaf states unwrap, every "
+         "multi-leaf state is refused with reason 11, malformed shapes raise TypeError). Bounded, exhaustive over the stated scope: "
+         "the merge itself - all triples over 4 keys x 2 values / 5 keys, links, malformed shapes, both implementations (merge_rt).",
+         "the declarative merge invariant of DESIGN.md 7/C07 is not discharged; recorded finding: malformed leaf states", "7/C07"),
  "C09": (True, "other", T_P + "; " + T_C + BOUNDED,
          "Both implementations proved against one contract where both proofs exist (Python leaf layer and tree entry "
          "points convert first / report absence; C integer conversions F-CONV); agreement over histories is the "
          "bounded relational stand-in (hist_rt twin mode).",
          "A1-A7; two recorded findings (TreeSet &= shape, empty-leaf minKey)", "7/C09"),
- "C10": (True, "exploration", "bounded exhaustive run-time contract stand-in (setop_rt)",
-         "Bounded only: all operand pairs over 5 keys of every kind, operators and in-place forms, both implementations.",
-         "the two-cursor merge contracts of DESIGN.md 7/C10 are not discharged yet", "7/C10"),
+ "C10": (True, "proof", T_P + BOUNDED,
+         "Proved for all strictly ascending operand sequences (BTrees containers, duplicate-free sorted iterables): Python union, "
+         "intersection and difference return a new, strictly sorted container whose key set is exactly the mathematical result, "
+         "None rules, operands unmodified (frame); the cursor (_SetIteration.advance) is proved against its abstraction and two "
+         "lemmas about prefix sets are proved by induction. Bounded: the C implementation, operators, in-place forms, plain "
+         "iterables with duplicates (setop_rt).",
+         "A1-A3, A7; _SetIteration.__init__ is an ASSUMED contract (sorted()/getattr dispatch outside the subset), cross-checked by "
+         "setop_rt; five recorded findings (duplicates, reflected operators, ^= with duplicates, generators, rsub with mappings)", "7/C10"),
  "C11": (True, "exploration", "bounded run-time contract stand-in (multiunion_rt)",
          "Bounded only: seeded multiunion cases on both sides of the 800-element switch, all integer families.",
          "F-SORT obligations (uniq, radix MSB order) not discharged yet", "7/C11"),
@@ -58,9 +65,11 @@ PROPS = {
          "every entry point (conv_rt).",
          "A4 API contracts of PyLong_AsLong & co., A5 clang AST == compiled code, A7; floats are opaque handles "
          "(rounding facts not proved); recorded findings for float range, setstate, default-comparison lookups", "7/C13"),
- "C18": (True, "exploration", "bounded run-time contract stand-in (checkers_rt)",
-         "Bounded only: valid trees accepted; single corruptions applied through __setstate__ rejected.",
-         "check_sorted / _check contracts not discharged yet", "7/C18"),
+ "C18": (True, "other", T_P + BOUNDED,
+         "Proved: Checker.check_sorted records an error exactly when some key violates its lower bound, its upper bound or the order "
+         "(loop invariant over all key lists and bounds). Bounded: valid trees accepted and single corruptions applied through "
+         "__setstate__ rejected by check() / _check(), both implementations (checkers_rt).",
+         "Checker.complain is abstracted (appends one error); Walker.walk and _check are not under contract; recorded finding: None as bound sentinel", "7/C18"),
  "C19": (True, "proof", T_P,
          "Proved for unbounded integers: every method of BTrees.Length, the resolution formula in both orders. "
          "Pickle/copy survival is a bounded run-time check.", "A1, A7", "7/C19"),
@@ -78,11 +87,18 @@ PROPS = {
          "lookups; T-RC on all C functions) and the reason-11 refusal. Not within reach of this family: outcomes over "
          "schedules - bounded stand-ins with a stub optimistic commit (conc_rt) and exhaustive merge triples (merge_rt).",
          "A1-A7; the stub commit protocol is a stated model of ZODB, which is absent", "7/C08"),
- "C14": (False, "proof", T_P + BOUNDED, "", "", "7/C14"),
+ "C14": (True, "proof", T_P + "; " + T_C + BOUNDED,
+         "Proved: on every path of the Python leaf layer where a key comparison raises, the exception propagates and no heap cell "
+         "has changed (faulty-comparison mode); C object-key TU: no pin and no local reference survives an error exit (T-PIN, T-REF). "
+         "Bounded: interior nodes, contents-after-failure, refcounts for every n-th failing comparison (cmpfault_rt).",
+         "A1-A7; recorded findings: separator comparison after the child's deletion, &= clear-then-update, TypeError swallowed by C leaf lookups", "7/C14"),
  "C15": (True, "exploration", "bounded run-time contract stand-in (iter_rt), crash-isolated in child processes",
          "Bounded only: interleavings of <= 4 iterator steps / index reads with <= 4 mutations on 8-key trees at node sizes 2/2, 3/2, all kinds, both implementations.",
          "M-ITER obligations (memory safety under interference) not discharged yet", "7/C15"),
- "C16": (False, "exploration", "bounded stand-in", "", "", "7/C16"),
+ "C16": (True, "other", T_C + BOUNDED,
+         "Proved: the local reference discipline T-REF for all functions of the object-keyed/-valued TUs except 31 listed ones. "
+         "Bounded: slot-level ownership (refcount equation per call) over histories (refcount_rt). Memory bounds are not proved.",
+         "A4 new/borrowed/steals table, A5-A7; functions outside the contract are listed in evidence; M-BND not discharged", "7/C16"),
  "C17": (True, "proof", T_C + "; bounded fault enumeration through the guarded allocation-failure hook (alloc_rt), every faulted call in its own process",
          "Proved for all inputs and every failing allocation: no container field is left pointing at a released block and "
          "a failed allocation is never swallowed (M-ALLOC typestate on all allocating functions). Bounded, exhaustive over the "
